@@ -40,6 +40,9 @@ pub struct Args {
     pub verif: PathBuf,
     pub repo: PathBuf,
     pub scale: f64,
+    pub digest_out: Option<PathBuf>,
+    /// restrict the run to corpus entries whose id contains this text (selftest)
+    pub only: Option<String>,
 }
 
 fn parse_args() -> Args {
@@ -53,6 +56,8 @@ fn parse_args() -> Args {
         verif: PathBuf::from("/verif"),
         repo: PathBuf::from("/repo"),
         scale: 1.0,
+        digest_out: None,
+        only: None,
     };
     let mut it = std::env::args().skip(1);
     while let Some(x) = it.next() {
@@ -64,6 +69,11 @@ fn parse_args() -> Args {
             "--verif" => a.verif = it.next().map(PathBuf::from).unwrap(),
             "--repo" => a.repo = it.next().map(PathBuf::from).unwrap(),
             "--scale" => a.scale = it.next().and_then(|s| s.parse().ok()).unwrap_or(1.0),
+            "--only" => a.only = it.next(),
+            "--digest-out" => {
+                a.digest_out = it.next().map(PathBuf::from);
+                report::DIGEST.store(true, std::sync::atomic::Ordering::Relaxed);
+            }
             _ if a.cmd.is_empty() => a.cmd = x,
             _ => a.file = Some(PathBuf::from(x)),
         }
